@@ -273,8 +273,7 @@ def run(ctx):
         "a contract-abiding JobQueue: Size/Head/Pop are individually atomic and Pop returns a minimum-priority entry",
         "the clock is non-decreasing; time.Timer fires no earlier than its deadline and Reset(d<=0) fires immediately",
         "the queue read, the clock read and timer.Reset of one loop iteration happen at one instant of the model's clock",
-        "one execution loop per scheduler consumes the interrupt token (a loop of an earlier run that has not yet observed its "
-        "cancelled context is outside this model; see notes/loop.md)",
+        "restart theorems: the loop of the stopped run has not already passed its ctx.Err() test on the way to a fetch when the new run starts",
     ])
     return 1 if ctx.violations else 0
 
